@@ -11,13 +11,17 @@ in every statement.  "client" = what `S3Compatible._prepare_request` computes (a
 generated `Replicat.Gen.s3*` values), "wire" = `toWire` = the request httpx emits, "reference" = the published algorithm
 evaluated on the wire (`ref*`, for both readings of `+` in the query: `plus = true` form decoding, `plus = false` literal).
 
-The full statement "`refSignature … (toWire c i) = clientSignature c i` for all inputs" is FALSE of model and code today:
+The full statement "`refSignature … (toWire c i) = clientSignature c i` for all inputs" is FALSE of the model and of the code it
+was written for:
 * D10  a query value containing a space is signed as `+` (`urlencode` defaults to `quote_plus`)  → `space_witness`;
 * D8   httpx removes `.`/`..` segments from the path after it was signed                        → `dot_segment_witness`;
-* D11  httpx lower-cases the host and drops a default port after it was signed                 → `host_witness`.
+* D11  the `Host` header httpx derives from the URL is lower-cased and loses a default port, after the configured host was signed
+       → `host_witness` (stated for a client that does not set the header itself, `toWireWith false`).
 `signature_agrees_partial` excludes exactly these three regions by decidable hypotheses (`NoKnownDefect`); the theorems are
-stated so that they keep compiling after the one-word fix of D10 (`quote_via=quote`), where the `ValuesOk` hypothesis becomes
-vacuous (`values_ok_after_fix`).
+stated so that they compile before AND after the repairs: after the one-word fix of D10 (`quote_via=quote`) the `ValuesOk`
+hypothesis becomes vacuous (`values_ok_after_fix`); once `_prepare_request` puts `Host: <configured host>` on the request itself
+(`hostHeaderExplicit`, generated from the headers the adapter hands to httpx) the `HostOk` hypothesis does
+(`host_ok_after_fix`, `host_sent_as_signed`, `signature_agrees_every_host`: EVERY configured host string).
 -/
 namespace Replicat.C16
 open Replicat Replicat.SigV4
@@ -84,7 +88,7 @@ structure WellFormed (i : Inputs) : Prop where
 
 /-- the three regions in which the property is known to fail today, as one decidable predicate -/
 def NoKnownDefect (i : Inputs) : Prop :=
-  hasDotSegment i.path = false ∧ ValuesOk i.query ∧ hostIsNormal i.scheme i.host = true
+  hasDotSegment i.path = false ∧ ValuesOk i.query ∧ HostOk i
 
 /-- quoting neither creates nor hides dot segments: the D8 region is "names with a `.` or `..` segment", nothing else -/
 theorem dot_segments_are_name_segments (p : Bytes) : hasDotSegment (clientPath p) = hasDotSegment p :=
@@ -95,13 +99,31 @@ theorem dot_segments_are_name_segments (p : Bytes) : hasDotSegment (clientPath p
 theorem dates_from_one_reading (t : ClockReading) : (fmtAmzDate t).take 8 = fmtDate t := by
   simp [fmtAmzDate, fmtDate, pad4, pad2]
 
+/-- the `Host` header: when the adapter puts it on the request itself (generated fact `hostHeaderExplicit`), the header on the
+wire is the configured — and signed — host VERBATIM, for EVERY configured host string and scheme (upper case, explicit default
+port, trailing dot, IPv6 literal, …): nothing is left to httpx's normalisation -/
+theorem host_sent_as_signed (hfix : hostHeaderExplicit = true) (c : Crypto) (i : Inputs) : (toWire c i).host = i.host :=
+  wireHost_of_ok i (Or.inl hfix)
+
+/-- the same about the shape itself, whatever the code does today: a client that sets the header sends the signed host -/
+theorem explicit_host_header_is_the_signed_host (c : Crypto) (i : Inputs) : (toWireWith true c i).host = i.host := rfl
+
+/-- after the repair of D11 every host is fine -/
+theorem host_ok_after_fix (hfix : hostHeaderExplicit = true) (i : Inputs) : HostOk i := Or.inl hfix
+
+/-- the D11 region is exact: the `Host` header on the wire is the signed host iff the adapter sets it itself or httpx has nothing
+to normalise in the configured spelling -/
+theorem host_agrees_exactly (c : Crypto) (i : Inputs) : (toWire c i).host = i.host ↔ HostOk i :=
+  wireHost_eq_iff hostHeaderExplicit i.scheme i.host
+
 /-- `_partial`: path, Host, x-amz-content-sha256 and x-amz-date on the wire are the strings that were signed.
-Missing: names with a `.`/`..` segment (D8), host spellings httpx normalises (D11). -/
+Missing: names with a `.`/`..` segment (D8); host spellings httpx normalises while the adapter leaves the `Host` header to httpx
+(D11 — `HostOk`, vacuous once `hostHeaderExplicit`). -/
 theorem wire_equals_signed_partial (c : Crypto) (i : Inputs) (hp : i.path ≠ [])
-    (hd : hasDotSegment i.path = false) (hh : hostIsNormal i.scheme i.host = true) :
+    (hd : hasDotSegment i.path = false) (hh : HostOk i) :
     (toWire c i).path = clientPath i.path ∧ (toWire c i).host = i.host ∧
     (toWire c i).contentSha = i.payloadDigest ∧ (toWire c i).amzDate = i.amzDate :=
-  ⟨httpxPath_of_no_dot _ (by rw [hasDotSegment_clientPath]; exact hd) (clientPath_ne_nil _ hp), httpxHost_of_normal _ _ hh, rfl, rfl⟩
+  ⟨httpxPath_of_no_dot _ (by rw [hasDotSegment_clientPath]; exact hd) (clientPath_ne_nil _ hp), wireHost_of_ok i hh, rfl, rfl⟩
 
 /-- the `Authorization` header has the published layout, carries the client's signature, names the three signed headers -/
 theorem authorization_layout (c : Crypto) (i : Inputs) :
@@ -136,6 +158,13 @@ theorem signature_agrees_partial (c : Crypto) (plus : Bool) (i : Inputs) (wf : W
   unfold refSignature clientSignature signatureOf
   simp only [hcr, hdate, ← wf.dates, scope_eq, stringToSign_eq, signingKey_eq]
 
+/-- with the explicit `Host` header the main clause holds for EVERY configured host string: no hypothesis about the host is left
+(D8 / D10 inputs remain excluded) -/
+theorem signature_agrees_every_host (hfix : hostHeaderExplicit = true) (c : Crypto) (plus : Bool) (i : Inputs) (wf : WellFormed i)
+    (hd : hasDotSegment i.path = false) (hv : ValuesOk i.query) :
+    refSignature c plus i.secret i.region (toWire c i) = clientSignature c i :=
+  signature_agrees_partial c plus i wf ⟨hd, hv, host_ok_after_fix hfix i⟩
+
 /-! ## negation witnesses of the full statement (each replayed on the real code by the harness) -/
 
 def demo (path host scheme : Bytes) (query : List (Bytes × Bytes)) : Inputs :=
@@ -150,13 +179,20 @@ theorem dot_segment_witness :
     (toWire idCrypto i).path = [47, 98, 47, 99] ∧ refCanonicalRequest true (toWire idCrypto i) ≠ clientCanonicalRequest i := by
   decide
 
-/-- D11: host `H` (upper case) is signed as given and sent as `h`; `h:443` over https is sent as `h` -/
+/-- D11 (a client that leaves the `Host` header to httpx — the code before the repair): host `H` (upper case) is signed as given
+and sent as `h`; `h:443` over https is sent as `h`; with the explicit header both requests carry what was signed -/
 theorem host_witness :
     let i := demo [47, 98] [72] [104, 116, 116, 112, 115] []
     let j := demo [47, 98] [104, 58, 52, 52, 51] [104, 116, 116, 112, 115] []
-    (toWire idCrypto i).host = [104] ∧ refCanonicalRequest true (toWire idCrypto i) ≠ clientCanonicalRequest i ∧
-    (toWire idCrypto j).host = [104] ∧ refCanonicalRequest true (toWire idCrypto j) ≠ clientCanonicalRequest j := by
+    (toWireWith false idCrypto i).host = [104] ∧ refCanonicalRequest true (toWireWith false idCrypto i) ≠ clientCanonicalRequest i ∧
+    (toWireWith false idCrypto j).host = [104] ∧ refCanonicalRequest true (toWireWith false idCrypto j) ≠ clientCanonicalRequest j ∧
+    refCanonicalRequest true (toWireWith true idCrypto i) = clientCanonicalRequest i ∧
+    refCanonicalRequest true (toWireWith true idCrypto j) = clientCanonicalRequest j := by
   decide
+
+/-- … and that shape IS the code as long as the generated fact says the adapter sets no `Host` header -/
+theorem host_witness_applies (h : hostHeaderExplicit = false) (c : Crypto) (i : Inputs) : toWire c i = toWireWith false c i := by
+  unfold toWire; rw [h]
 
 /-- D10 at request level: prefix `a b` — under either reading of `+` the endpoint's canonical request differs -/
 theorem space_request_witness (h : Gen.s3QueryViaQuotePlus = true) :
@@ -164,7 +200,7 @@ theorem space_request_witness (h : Gen.s3QueryViaQuotePlus = true) :
     refCanonicalRequest true (toWire idCrypto i) ≠ clientCanonicalRequest i ∧
     refCanonicalRequest false (toWire idCrypto i) ≠ clientCanonicalRequest i := by
   have hq : ∀ s, queryQuote s = pyQuotePlus Gen.s3QuerySafeB s := by intro s; unfold queryQuote; rw [h]; rfl
-  simp only [refCanonicalRequest, clientCanonicalRequest, toWire, clientQueryPairs, clientQueryString, refCanonicalQuery,
+  simp only [refCanonicalRequest, clientCanonicalRequest, toWire, toWireWith, clientQueryPairs, clientQueryString, refCanonicalQuery,
     refQueryPairs, hq]
   decide
 
